@@ -118,6 +118,26 @@ CLAIMED = {
             'fit_optimize / fit_optimize_positive / fit_interpolate (SciPy optimisers) are not encodable -> default fitters of ModelWeighted and '
             'ModelInterpolate are outside; fit_regress_nn (active-set loop) did not terminate within the budget symbolically and is outside; '
             'normal equations => optimality is the usual projection argument (Cauchy-Schwarz lemma solver-checked in C03/C07); 2-3 basis RDMs, 3-4|5 conditions'),
+    'C04': ('DESIGN.md 4/C04',
+            'Real eval_bootstrap_rdm / _pattern / eval_bootstrap run with N=2|3 resamples whose np.random draws are choice points: every '
+            'outcome of both resamples for the RDM bootstrap, every outcome of the first resample (second fixed) for the pattern and '
+            'two-factor bootstrap; on every outcome each stored evaluation is proved (z3, all real data/model values) equal to the mean '
+            'cosine similarity between the prediction restricted to the drawn conditions (with multiplicity, copy pairs missing) and the '
+            'resampled data RDMs, NaN exactly for <3 distinct conditions, the stored noise ceilings equal the reference leave-one-group-out '
+            'bounds of the SAME resample, dof = resampled groups - 1, covariance = sample covariance across evaluable resamples. crossval: '
+            'probe fitter sees the training fold only, score = oracle on theta and the test fold, folds with <=2 conditions are NaN.',
+            'N<=3, <=3 RDMs x 3|4 conditions, cosine only, fixed models in the bootstrap routines; bootstrap_crossval and the dual '
+            'bootstrap are not covered (outcome space too large); seed-reproducibility of NumPy\'s generator is outside (draws are stubbed)'),
+    'C06': ('DESIGN.md 4/C06',
+            'Real extract_variances (scalar, vector, matrix, 3-stack, with/without ceiling rows, all n_rdm/n_pattern combinations) proved '
+            'equal to the contrasts var_i, var_i+var_j-2cov_ij, model-vs-ceiling with the n/(n-1) factor; dual-bootstrap result proved '
+            '<= the two-factor variance and >= every corrected single-factor variance that is itself below it; t_tests / t_test_0 / '
+            't_test_nc: the statistic handed to the (stubbed, axiomatised) Student-t cdf is proved to be effect/sqrt(max(var,eps)) of the '
+            'NaN-aware means, p in [0,1], symmetric with unit diagonal, monotone in the effect at equal variance (from the cdf axioms: range, '
+            'monotone, F(x)>=1/2 iff x>=0); permutation equivariance; eval_fixed: evaluations, means, dof=n-1, s^2/n standard errors and the '
+            'covariance feeding the paired-t variance; Result.get_means for 2-4 dimensional evaluation arrays.',
+            'numerical values of the t distribution are trusted (only its contract is used); Wilcoxon rank-sum and bootstrap percentile '
+            'tests outside; dof must be a concrete number'),
 }
 
 NA = {
